@@ -3,6 +3,7 @@ package k8s
 import (
 	"reflect"
 
+	"github.com/nginx/kubernetes-ingress/internal/configs"
 	nl "github.com/nginx/kubernetes-ingress/internal/logger"
 	discovery_v1 "k8s.io/api/discovery/v1"
 	"k8s.io/client-go/tools/cache"
@@ -81,6 +82,7 @@ func (lbc *LoadBalancerController) syncEndpointSlices(task task) bool {
 	var endpointSliceExists bool
 	var err error
 	var resourcesFound bool
+	var updateErr error
 
 	ns, _, _ := cache.SplitMetaNamespaceKey(key)
 	obj, endpointSliceExists, err = lbc.getNamespacedInformer(ns).endpointSliceLister.GetByKey(key)
@@ -111,6 +113,7 @@ func (lbc *LoadBalancerController) syncEndpointSlices(task task) bool {
 				nl.Debugf(lbc.Logger, "Updating EndpointSlices for %v", resourceExes.IngressExes)
 				err = lbc.configurator.UpdateEndpoints(resourceExes.IngressExes)
 				if err != nil {
+					updateErr = err
 					nl.Errorf(lbc.Logger, "Error updating EndpointSlices for %v: %v", resourceExes.IngressExes, err)
 				}
 				break
@@ -125,6 +128,7 @@ func (lbc *LoadBalancerController) syncEndpointSlices(task task) bool {
 				nl.Debugf(lbc.Logger, "Updating EndpointSlices for %v", resourceExes.MergeableIngresses)
 				err = lbc.configurator.UpdateEndpointsMergeableIngress(resourceExes.MergeableIngresses)
 				if err != nil {
+					updateErr = err
 					nl.Errorf(lbc.Logger, "Error updating EndpointSlices for %v: %v", resourceExes.MergeableIngresses, err)
 				}
 				break
@@ -140,6 +144,7 @@ func (lbc *LoadBalancerController) syncEndpointSlices(task task) bool {
 					nl.Debugf(lbc.Logger, "Updating EndpointSlices for %v", resourceExes.VirtualServerExes)
 					err := lbc.configurator.UpdateEndpointsForVirtualServers(resourceExes.VirtualServerExes)
 					if err != nil {
+						updateErr = err
 						nl.Errorf(lbc.Logger, "Error updating EndpointSlices for %v: %v", resourceExes.VirtualServerExes, err)
 					}
 					break
@@ -152,9 +157,14 @@ func (lbc *LoadBalancerController) syncEndpointSlices(task task) bool {
 			nl.Debugf(lbc.Logger, "Updating EndpointSlices for %v", resourceExes.TransportServerExes)
 			err := lbc.configurator.UpdateEndpointsForTransportServers(resourceExes.TransportServerExes)
 			if err != nil {
+				updateErr = err
 				nl.Errorf(lbc.Logger, "Error updating EndpointSlices for %v: %v", resourceExes.TransportServerExes, err)
 			}
 		}
+	}
+	if updateErr != nil {
+		// report the failure on the resources that use the service, as syncService does
+		lbc.updateResourcesStatusAndEvents(svcResource, configs.Warnings{}, updateErr)
 	}
 	return resourcesFound
 }
